@@ -15,7 +15,7 @@ cp /tmp/wt/"$id"/mutdemo/*.go seeded/"$id"/mutdemo/ 2>/dev/null
 import json,sys
 id,prop=sys.argv[1:3]
 json.dump({"breaks_property":prop,
- "origin":"independent sub-agent (eighth round: given only the property text, the list of mechanisms already collected, a suggested hunting ground, and a scratch worktree)",
+ "origin":"independent sub-agent (ninth round: given only the property text, the list of mechanisms already collected, a suggested hunting ground, and a scratch worktree)",
  "needs_to_manifest":open(f"/tmp/wt/{id}.md").read(),
  "confirmed_by_me":"tools/confirm_mutant.sh in the scratch worktree: existing suite passes with the change; go test ./mutdemo/ FAILS with the change and passes without it",
  "checks_that_catch_it":[], "caught_when":"", "how_it_is_noticed":"",
